@@ -24,6 +24,18 @@ For each mutation write into {wt}/_seed/ (create the directory):
  - NOTES.md : for each mutation, 3-6 lines: what was changed, which clause of the property it breaks, and exactly what is needed for it to manifest.
 Verify yourself, for each mutation separately: clean tree -> demo passes; apply diff -> demo fails AND the full test-suite still passes; then `git checkout -- .` to restore the tree (leave the tree clean at the end, with only the untracked _seed/ directory added). Report back a short summary (what the two mutations are and the verification results).
 """
+ROUND2 = """
+
+Additional instructions for this round:
+ - name the files mutC.diff / mutD.diff / demoC.py / demoD.py (not A/B);
+ - other people are running jobs on this machine at the same time: always export OMP_NUM_THREADS=1 OPENBLAS_NUM_THREADS=1 before running python or pytest (otherwise small fits become ~100x slower), never use `git stash` (the stash is shared between worktrees; use `git diff > file` / `git checkout -- .` / `git apply file`), and never touch /dev/shm files you did not create;
+ - aim for changes of a DIFFERENT flavour from the obvious ones: e.g. state carried between calls (caches, module globals, mutated arguments or inputs), behaviour that depends on the ORDER of inputs or of operations, an off-by-one that only shows at a size/shape boundary, a unit or sign convention that only matters in one hemisphere/quadrant/polarity, an option combination, or the command-line entry point (AegeanTools/CLI/*.py) passing something slightly wrong to the library.
+"""
+letters = "AB"
+if "--round2" in sys.argv:
+    sys.argv.remove("--round2")
+    T = T.replace("mutA.diff / mutB.diff", "mutC.diff / mutD.diff").replace("demoA.py / demoB.py", "demoC.py / demoD.py").replace(
+        "(mutation A and mutation B)", "(mutation C and mutation D)").replace("_seed/demoA.py", "_seed/demoC.py") + ROUND2
 for pid in sys.argv[1:]:
     p = props[pid]
     wt = "/tmp/wt_%s" % pid
